@@ -106,6 +106,10 @@ func verifSetBudget(n int) {}
 func verifExplore(mapOrderBudget int, sched int) {}
 func verifNativeRepeat(n int) int { return n }
 
+// verifFireTimers: natively time passes by itself; harnesses that fire timers configure short durations and the
+// native side just waits long enough for them to expire.
+func verifFireTimers() int { time.Sleep(60 * time.Millisecond); return 0 }
+
 // verifTerminates: natively a watchdog; the replay driver treats a hang as reproduction.
 func verifTerminates(budget int, label string) {
 	fmt.Printf("VERIF-TERMINATES %s\n", label)
